@@ -5,7 +5,11 @@ sc_ranges_statistics of the freshly built library: exhaustively for P <= 7 (all 
 budgets 1..4) and for all families of vectors with P <= 3 (P = 4 in the thorough tier), random up to P = 200;
 a P-rank run is emulated in one process (compute per rank, maxima and gather in the harness, decode per rank);
 sc_ranges_adaptive + sc_ranges_decode themselves run on the simulated MPI (tools/simmpi, all schedule adversaries)
-and under OpenMPI for a few P.  An independent Python oracle restates the property on every implementation output."""
+and under OpenMPI for a few P; sc_notify_payload with type ranges (num_ranges 1..5) runs on the simulated MPI as the user of the
+ranges.  An independent Python oracle restates the property on every implementation output.
+T1: group RangesC15 (tools/c2g/groups_C15.py) is regenerated from the working tree before the 85 theorems are checked: scalar slices of
+sc_ranges_compute / sc_ranges_decode and, with ranges[e] / procs[e] as memory reads, the claim loop, the whole eviction scan, the qsort call and
+its comparator, the whole bodies of sc_ranges_adaptive and sc_ranges_statistics (coq/C15/RangesGen.v, RangesGenLoops.v)."""
 import os, sys, json, itertools
 import vlib
 
@@ -141,7 +145,7 @@ def gen_adaptive(rng, P, n):
         dens = rng.choice([0.1, 0.4, 0.8])
         vals = rng.choice([[1], [1], [1, 2, -1], [1, 5, -3]])       # negative entries are peers but are not counted by the first maximum
         vecs = [[(rng.choice(vals) if rng.random() < dens else 0) for _ in range(P)] for _ in range(P)]
-        nr = rng.choice([1, 2, 3, 4])
+        nr = rng.choice([1, 2, 3, 4, 5])
         acases.append((vecs, nr, "A %x %x %s" % (nr, P, " ".join(hx(x) for vv in vecs for x in vv))))
     return acases
 
@@ -196,6 +200,55 @@ def gen_cases(ctx):
         nr = rng.choice([1, 2, 3, 4, 5, 8, 25, rng.randrange(1, 40)])
         f, l = first_last(v, rank)
         cases.append(("C", (v, rank, nr), "C %s %s %s %x %x %s" % (hx(rank), hx(f), hx(l), nr, P, " ".join(map(hx, v)))))
+    # random LARGE compute cases: P up to 2000, budgets 1..30, peer densities from sparse to dense, own flag set or not; aimed at the
+    # case splits of the eviction proofs: many evictions (gaps >> budget), ties at the threshold length (block patterns with few
+    # gap lengths), all gaps different (no ties: the kept set is unique), no eviction at all (budget > gaps)
+    nlarge = 120 if ctx.quick else 1500
+    for k in range(nlarge):
+        P = rng.choice([500, 1000, 1999, 2000, rng.randrange(201, 2001)])
+        style = k % 5
+        small_nr = False
+        if style == 4:
+            # two to four peers far apart, budget 1..3: EVERY slot holds a gap of many hundred ranks when the eviction scan runs
+            # (its start value num_procs + 1 must exceed all of them)
+            v = [0] * P
+            for _ in range(rng.randrange(2, 5)):
+                v[rng.randrange(P)] = 1
+            v[0] = v[P - 1] = rng.choice([0, 1])
+            small_nr = True
+        elif style == 0:
+            dens = rng.choice([0.002, 0.01, 0.05, 0.3, 0.7, 0.95, 0.995])
+            v = [1 if rng.random() < dens else 0 for _ in range(P)]
+        elif style == 1:
+            v, j = [0] * P, rng.randrange(0, 10)
+            lens = rng.choice([[1], [1, 2], [3, 3, 4], [1, 2, 3, 5, 8], [7]])
+            while j < P:
+                for _ in range(rng.randrange(1, 5)):
+                    if j < P:
+                        v[j] = rng.choice([1, 1, 3, -2])
+                        j += 1
+                j += rng.choice(lens)
+        elif style == 2:
+            # gaps of pairwise different lengths 1, 2, 3, .. in random order: no ties
+            v, j = [0] * P, 0
+            ls = list(range(1, 60))
+            rng.shuffle(ls)
+            for L in ls:
+                if j >= P:
+                    break
+                v[j] = 1
+                j += 1 + L
+            if j < P:
+                v[j] = 1
+        else:
+            v = [0] * P
+            for _ in range(rng.randrange(2, 40)):
+                v[rng.randrange(P)] = 1
+        rank = rng.randrange(P)
+        v[rank] = rng.choice([0, 1, 1, 5])
+        nr = rng.randrange(1, 4) if small_nr else rng.randrange(1, 31)
+        f, l = first_last(v, rank)
+        cases.append(("C", (v, rank, nr), "C %s %s %s %x %x %s" % (hx(rank), hx(f), hx(l), nr, P, " ".join(map(hx, v)))))
     # random families (emulated P-rank runs)
     for _ in range(150 if ctx.quick else 3000):
         P = rng.choice([2, 3, 4, 5, 6, 7, 8, 12, 17, 32, rng.randrange(2, 41)])
@@ -204,7 +257,10 @@ def gen_cases(ctx):
         dens = rng.choice([0.05, 0.2, 0.5, 0.8])
         vals = rng.choice([[1, 1, 3], [1], [1, -1, 2], [-2, 4]])
         vecs = [[(rng.choice(vals) if rng.random() < dens else 0) for _ in range(P)] for _ in range(P)]
-        nr = rng.choice([1, 2, 3, 4, 6, 25])
+        if rng.random() < 0.3:
+            for r in range(P):
+                vecs[r][r] = rng.choice(vals)          # procs[rank] != 0 on every rank: the own rank is never a peer
+        nr = rng.choice([1, 2, 3, 4, 5, 6, 25])
         cases.append(("T", (vecs, nr), "T %x %x %s" % (nr, P, " ".join(hx(x) for v in vecs for x in v))))
     # random well-formed tables for decode alone
     for _ in range(300 if ctx.quick else 5000):
@@ -308,7 +364,15 @@ def run(ctx):
                     if w[1].strip() != hx(want):
                         dev = "sc_ranges_statistics counts %s covered non-peers, the ranges cover %d" % (w[1].strip(), want)
                 nontriv = n > 0
-                dist["C P<=7" if len(vv) <= 7 else "C P>7"] = dist.get("C P<=7" if len(vv) <= 7 else "C P>7", 0) + 1
+                dk = "C P<=7" if len(vv) <= 7 else ("C 7<P<=200" if len(vv) <= 200 else "C 200<P<=2000")
+                dist[dk] = dist.get(dk, 0) + 1
+                if len(vv) > 7:
+                    ps_ = [j for j in range(len(vv)) if vv[j] != 0 and j != rank]
+                    ngaps = sum(1 for a_, b_ in zip(ps_, ps_[1:]) if b_ - a_ > 1)
+                    ek = "C P>7: no eviction (gaps < budget)" if ngaps < nr else "C P>7: evictions (gaps >= budget)"
+                    dist[ek] = dist.get(ek, 0) + 1
+                    if vv[rank] != 0:
+                        dist["C P>7: procs[rank] != 0"] = dist.get("C P>7: procs[rank] != 0", 0) + 1
             elif kind == "T":
                 vecs, nr = meta
                 P = len(vecs)
@@ -350,17 +414,29 @@ def run(ctx):
             if ndis <= 3:
                 ctx.tie_broken("correspondence model/libsc", "case '%s...': libsc '%s', model '%s'" % (line[:120], io[:200], model[i][:200] if i < len(model) else "<missing>"))
     # sc_ranges_adaptive on the simulated MPI: every schedule adversary, replayable (seed, adversary)
-    nsim = 0
+    nsim = nnot = 0
     try:
         vs = ctx.variant(mpi="sim", san=True)
         exes = ctx.cc([harness, os.path.join(vlib.TOOLS, "simmpi", "simmpi.c")], os.path.join(ctx.scratch, "c15_sim"), vs, extra=("-DC15_SIM",))
         scases = []
-        if ctx.replay and rp.get("sim"):
+        if ctx.replay and rp.get("sim") and not str(rp["sim"][4]).startswith("N"):
             scases.append(tuple(rp["sim"]))
         for P in ((1, 2, 3, 4, 5, 8, 13) if ctx.quick else (1, 2, 3, 4, 5, 6, 7, 8, 9, 13, 16, 24, 32)):
             for (vecs, nr, line) in gen_adaptive(ctx.rng, P, 24 if ctx.quick else 200):
                 scases.append((ctx.rng.randrange(1 << 30), ctx.rng.randrange(8), nr, [list(v) for v in vecs], line))
+        # the USE of the ranges: sc_notify_payload with type SC_NOTIFY_RANGES, num_ranges 1..5 (N cases, no model: the oracle is the transpose)
+        ncases = []
+        if ctx.replay and rp.get("sim") and str(rp["sim"][4]).startswith("N"):
+            ncases.append(tuple(rp["sim"]))
+        for P in ((1, 2, 3, 5, 8, 13, 21) if ctx.quick else (1, 2, 3, 4, 5, 6, 7, 8, 9, 13, 16, 24, 32, 48)):
+            for k in range(10 if ctx.quick else 60):
+                dens = ctx.rng.choice([0.05, 0.2, 0.5, 0.9])
+                vecs = [[(1 if ctx.rng.random() < dens else 0) for _ in range(P)] for _ in range(P)]
+                nr = 1 + k % 5
+                ncases.append((ctx.rng.randrange(1 << 30), ctx.rng.randrange(8), nr, vecs,
+                               "N %x %x %s" % (nr, P, " ".join(hx(x) for vv in vecs for x in vv))))
         stext = "".join("S %x %x %s\n" % (sd, adv, line[2:]) for (sd, adv, nr, vecs, line) in scases)
+        stext += "".join("N %x %x %s\n" % (sd, adv, line[2:]) for (sd, adv, nr, vecs, line) in ncases)
         rc, sl, serr = ctx.run_lines([exes], stext, timeout=300 if ctx.quick else 1800, env=env)
         sl = [l for l in sl if l != ""]
         ml = None
@@ -401,9 +477,43 @@ def run(ctx):
                         ctx.tie_broken("correspondence model/libsc (simulated MPI)", "case '%s' rank %d: libsc '%s', model '%s'" % (
                             line[:100], b, outs[b][:200], ml[mpos + b][:200] if mpos + b < len(ml) else "<missing>"))
             mpos += P
+        for (sd, adv, nr, vecs, line) in ncases:
+            P = len(vecs)
+            rep = dict(sim=[sd, adv, nr, vecs, line], case=line)
+            key = "notify-ranges-sim:P%d:nr%d:adv%d" % (P, nr, adv)
+            if pos >= len(sl) or not sl[pos].startswith("RUN "):
+                ctx.violation("crash:sim", "the simulated run of '%s' (seed %d, adversary %d) ended the harness (exit %s): %s" % (line[:120], sd, adv, rc, errsum(serr)), rep)
+                break
+            head, per = sl[pos], sl[pos + 1:pos + 1 + P]
+            pos += 1 + P
+            ctx.count_case(("sim", sd, adv, line), nontrivial=P > 1)
+            nnot += 1
+            dev = None
+            if not head.startswith("RUN rc=0 mem=0"):
+                dev = head[:400]
+            else:
+                try:
+                    for q in range(P):
+                        body = per[q].split(": ", 1)[1]
+                        snd = [unhx(x) for x in body.split(":P")[0][1:].split()]
+                        pay = [unhx(x) for x in body.split(":P")[1].split()]
+                        want = [p_ for p_ in range(P) if vecs[p_][q] != 0]
+                        if snd != want:
+                            dev = "rank %d is notified by %s, the ranks that list it as receiver are %s" % (q, snd, want)
+                            break
+                        if pay != [p_ * 4096 + q for p_ in want]:
+                            dev = "rank %d receives the payloads %s from %s" % (q, pay[:12], want[:12])
+                            break
+                except (IndexError, ValueError) as e:
+                    dev = "unparsable output (%s)" % e
+            if dev:
+                nviol += 1
+                if nviol <= 8:
+                    ctx.violation(key, "sc_notify_payload (ranges, num_ranges %d) on the simulated MPI, case '%s' seed %d adversary %d: %s" % (nr, line[:120], sd, adv, dev), rep)
     except vlib.BuildError as e:
         ctx.tie_broken("c15 simmpi build", str(e)[-1000:])
     dist["A (simulated MPI, 8 adversaries)"] = nsim
+    dist["N (sc_notify type ranges on the simulated MPI, num_ranges 1..5)"] = nnot
     # sc_ranges_adaptive for real under OpenMPI
     nmpi = 0
     try:
@@ -450,9 +560,11 @@ def run(ctx):
     ctx.cov["rule"] = ("EXHAUSTIVE: sc_ranges_compute for every P in 1..7, every 0/1 indicator vector, every own rank, budgets 1..4 (%d cases), and complete "
                        "emulated runs (compute per rank, maxima, gather, decode per rank) for every family of vectors with P <= %d and budgets 1..4 (%d "
                        "cases); plus seeded random cases: compute up to P = 200 (densities 2%%..98%%, block patterns with equal gap lengths, values "
-                       "0/1/2/7/-1), families up to P = 40 (some 100/200, negative entries included), decode on random well-formed tables, "
+                       "0/1/2/7/-1) and up to P = 2000 (budgets 1..30, densities 0.2%%..99.5%%, block patterns with few gap lengths = ties at the threshold, "
+                       "pairwise different gap lengths = no ties, a handful of peers, 2..4 peers far apart with budgets 1..3, procs[rank] set in 3 of 4), families up to P = 40 (some 100/200, negative entries included), decode on random well-formed tables, "
                        "sc_ranges_adaptive + decode on the simulated MPI (P up to 13, 32 in the thorough tier, all 8 schedule adversaries, random seeds) "
-                       "and under OpenMPI for a few P; a case is non-trivial if at least one range is produced (simulated runs: P > 1); "
+                       "and under OpenMPI for a few P; sc_notify_payload with type ranges and num_ranges 1..5 on the simulated MPI (P up to 21, 48 in the thorough "
+                       "tier; oracle: senders and payloads = the transpose of the receiver lists, run ends normally without leftover); a case is non-trivial if at least one range is produced (simulated runs: P > 1); "
                        "distinct = distinct case text (and schedule)"
                        % (nex, 3 if ctx.quick else 4, nfam))
     ctx.notes["case_distribution"] = dist
@@ -463,7 +575,10 @@ def run(ctx):
     ctx.cov["trusted_base"] = ["hand-written model coq/C15/RangesModel.v: its loop structure is tied by this correspondence run; T1: its integer decisions (unused constants, peer / gap tests, claimed range, "
                                "the scan for the shortest slot and the eviction, the inversion step, the receiver / sender membership tests of decode) are proved EQUAL to Gen/RangesC15.v, regenerated "
                                "from the working tree on every run (tools/c2g + tools/c2g/slicelib.py + clang-14 JSON AST trusted; ranges[2 * x] / ranges[2 * x + 1] are translated as the locations lo_x / hi_x)",
-                               "insertion sort stands for qsort: the keys (starts of the empty ranges) are pairwise different, so the sorted result is unique",
+                               "T1, loops and whole bodies (class RangesT in tools/c2g/groups_C15.py: ranges[e] / procs[e] as memory reads): the claim loop, the whole eviction scan, the unconditional qsort call and its comparator, "
+                               "the whole bodies of sc_ranges_adaptive and sc_ranges_statistics are proved equal to the model (C15/RangesGenLoops.v)",
+                               "insertion sort stands for qsort: the keys (starts of the empty ranges) are pairwise different, so the sorted result is unique (proved: C15_sort_unique)",
+                               "MPI/SemColl.coll_reply: the contract of MPI_Allreduce (MAX) / MPI_Allgather under which C15_adaptive_every_schedule is proved",
                                "tools/simmpi and OpenMPI: MPI_Allreduce (MAX) / MPI_Allgather return their specified values on every rank"]
     ctx.assumptions += ["first_peer / last_peer are the smallest / largest peer, or (num_procs, -1) without peers (asserted by the debug build, computed like sc_notify.c does)",
                         "0 <= rank < num_procs, num_ranges >= 1, the same num_ranges on all ranks of an adaptive call",
